@@ -111,6 +111,236 @@ mutual
       else reduce a.neg (subLoop a.mag b.mag 0)
 end
 
+/-! ### multiplication (:985-1100, DDproduct :1786-1803) -/
+
+def H : Nat := 4294967296   -- 2^32: `word_type_half_bits`
+
+/-- `DDproduct(A, B, hi, lo)`: 128-bit product from 32-bit halves; returns `(hi, lo)` -/
+def ddproduct (a b : Nat) : Nat × Nat :=
+  let hiA := a / H
+  let loA := a % H
+  let hiB := b / H
+  let loB := b % H
+  let lo0 := (loA * loB) % B
+  let hi0 := (hiA * hiB) % B
+  let mid1 := (loA * hiB) % B
+  let mid2 := (hiA * loB) % B
+  let lo1 := (lo0 + (mid1 * H) % B) % B
+  let hi1 := (hi0 + ((if lo1 < lo0 then 1 else 0) + mid1 / H)) % B
+  let lo2 := (lo1 + (mid2 * H) % B) % B
+  let hi2 := (hi1 + ((if lo2 < lo1 then 1 else 0) + mid2 / H)) % B
+  (hi2, lo2)
+
+/-- loop of `operator*=(word)` (:998-1021); the final `this_view[i] = carry` is the `[]` case -/
+def mulWordLoop (y : Nat) : List Nat → Nat → List Nat
+  | [], carry => [carry]
+  | dig :: xs, carry =>
+    let p := ddproduct dig y
+    let d := (p.2 + carry) % B
+    d :: mulWordLoop y xs ((p.1 + (if d < p.2 then 1 else 0)) % B)
+
+def mulWord (x : List Nat) (y : Nat) : List Nat := stripHigh (mulWordLoop y x 0)
+
+/-- `operator*=(word)` with its `reduce()` (zero becomes non-negative) -/
+def mulWordBig (a : Big) (y : Nat) : Big := reduce a.neg (mulWordLoop y a.mag 0)
+
+/-- inner loop of the schoolbook product over `jA` for a fixed column `i`; accumulator (sumLo, sumHi, carry) -/
+def colLoop (y : List Nat) (i : Nat) : List Nat → Nat → Nat × Nat × Nat → Nat × Nat × Nat
+  | [], _, acc => acc
+  | xa :: xs, jA, (sumLo, sumHi, carry) =>
+    if i ≥ jA ∧ i - jA < y.length then
+      let p := ddproduct xa (y.getD (i - jA) 0)
+      let sumLo' := (sumLo + p.2) % B
+      let sumHi1 := if sumLo' < sumLo then (sumHi + 1) % B else sumHi
+      let sumHi' := (sumHi1 + p.1) % B
+      let carry' := (carry + (if sumHi' < sumHi then 1 else 0)) % B
+      colLoop y i xs (jA + 1) (sumLo', sumHi', carry')
+    else colLoop y i xs (jA + 1) (sumLo, sumHi, carry)
+
+/-- outer loop over the `lenProd` columns -/
+def rowLoop (x y : List Nat) : Nat → Nat → Nat → Nat → List Nat
+  | 0, _, _, _ => []
+  | n + 1, i, sumHi, carry =>
+    let acc := colLoop y i x 0 (sumHi, carry, 0)
+    acc.1 :: rowLoop x y n (i + 1) acc.2.1 acc.2.2
+
+def schoolbook (x y : List Nat) : List Nat := rowLoop x y (x.length + y.length) 0 0 0
+
+/-- magnitude of `operator*=(basic_bigint)` (:1023-1100). The 1×1 exit divides by `a`: the class invariant
+    (no high zero word) makes `a ≠ 0` there. -/
+def mulMag (x y : List Nat) : List Nat :=
+  match x, y with
+  | [], _ => []
+  | _, [] => []
+  | [a], [b] =>
+    let p := (a * b) % B
+    if p / a ≠ b then
+      let dd := ddproduct a b
+      [dd.2, dd.1]
+    else [p]
+  | [a], y => stripHigh (mulWord y a)
+  | x, [b] => stripHigh (mulWord x b)
+  | x, y => stripHigh (schoolbook x y)
+
+def mul (a b : Big) : Big :=
+  let m := mulMag a.mag b.mag
+  if a.mag = [] ∨ b.mag = [] then { neg := a.neg, mag := [] }     -- `*this = 0`: assignment from zero keeps the sign flag (:366-380)
+  else { neg := a.neg != b.neg, mag := m }
+
+/-! ### shifts (:1117-1180) -/
+
+/-- `this[i] = (this[i] << k) | ((this[i-1] >> k1) & mask)` from the top word down; `prev` is `this[i-1]`
+    (still unshifted when word `i` is computed); the `[]` case is the extra word of `resize(size + 1)` -/
+def shlBits (k : Nat) : List Nat → Nat → List Nat
+  | [], prev => [((0 <<< k) % B) ||| ((prev >>> (64 - k)) &&& (2 ^ k - 1))]
+  | x :: xs, prev => (((x <<< k) % B) ||| ((prev >>> (64 - k)) &&& (2 ^ k - 1))) :: shlBits k xs x
+
+def shlWords (k : Nat) : List Nat → List Nat
+  | [] => [0]
+  | x :: xs => ((x <<< k) % B) :: shlBits k xs x
+
+/-- `operator<<=` before the final `reduce()`: whole words first, then the bit shift -/
+def shlRaw (x : List Nat) (k : Nat) : List Nat :=
+  let q := k / 64
+  let r := k % 64
+  let x1 := if q ≠ 0 then List.replicate q 0 ++ x else x
+  if r ≠ 0 then shlWords r x1 else x1
+
+def shl (a : Big) (k : Nat) : Big := reduce a.neg (shlRaw a.mag k)
+
+/-- `this[i] = (this[i] >> k) | ((this[i+1] & mask) << k1)` from the bottom word up -/
+def shrBits (k : Nat) : List Nat → List Nat
+  | [] => []
+  | [x] => [x >>> k]
+  | x :: x' :: xs => ((x >>> k) ||| (((x' &&& (2 ^ k - 1)) <<< (64 - k)) % B)) :: shrBits k (x' :: xs)
+
+/-- `operator>>=`: when every word is shifted out the size becomes 0 *without* `reduce()`, so the sign
+    flag stays as it was -/
+def shr (a : Big) (k : Nat) : Big :=
+  let q := k / 64
+  let r := k % 64
+  if q ≥ a.mag.length then { neg := a.neg, mag := [] }
+  else
+    let x1 := a.mag.drop q
+    if r = 0 then reduce a.neg x1 else reduce a.neg (shrBits r x1)
+
+/-! ### radix conversion from text and bytes (detail::to_bigint :2055-2113, from_bytes_be :792-817) -/
+
+/-- the integer constructor: zero has no words -/
+def ofWord (w : Nat) : Big := { neg := false, mag := if w = 0 then [] else [w] }
+
+/-- `operator+=(word)` (:887-917) on a non-negative value: one word added, then the carry loop -/
+def addWord (x : List Nat) (y : Nat) : List Nat := addLoop (padTo (x.length + 1) x) [y] 0
+
+def addWordBig (a : Big) (y : Nat) : Big :=
+  if a.neg then sub 4 a (negate (ofWord y)) else reduce a.neg (addWord a.mag y)
+
+/-- `v *= radix; v += digit` -/
+def pushDigit (radix : Nat) (v : Big) (d : Nat) : Big :=
+  addWordBig (mulWordBig v radix) d
+
+def ofDecimalLoop : List Nat → Big → Option Big
+  | [], v => some v
+  | c :: cs, v => if 48 ≤ c ∧ c ≤ 57 then ofDecimalLoop cs (pushDigit 10 v (c - 48)) else none
+
+/-- `detail::to_bigint(data, length, neg, value)` on the characters after an optional '-' -/
+def ofDecimalDigits (neg : Bool) (s : List Nat) : Option Big :=
+  if s = [] then none
+  else if s.all (· = 48) then some (ofWord 0)
+  else match ofDecimalLoop s (ofWord 0) with
+    | none => none
+    | some v => some { neg := neg, mag := v.mag }
+
+def ofDecimal (s : List Nat) : Option Big :=
+  match s with
+  | [] => none
+  | 45 :: cs => ofDecimalDigits true cs
+  | _ => ofDecimalDigits false s
+
+def fromBytesLoop : List Nat → Big → Big
+  | [], v => v
+  | b :: bs, v => fromBytesLoop bs (pushDigit 256 v b)
+
+def fromBytesBE (signum : Int) (bytes : List Nat) : Big :=
+  let v := fromBytesLoop bytes (ofWord 0)
+  if signum < 0 then { neg := true, mag := v.mag } else v
+
+/-! ### division by a half-word divisor (divide :1681-1738) and write_bytes_be (:1328-1353) -/
+
+/-- the loop from the most significant word down; input and output most significant word first -/
+def divHalfLoop (d : Nat) : List Nat → Nat → List Nat × Nat
+  | [], dHi => ([], dHi)
+  | w :: ws, dHi =>
+    let dividend := ((dHi <<< 32) % B) ||| (w >>> 32)
+    let q1 := dividend / d
+    let r := dividend % d
+    let dividend2 := ((r <<< 32) % B) ||| (w &&& (H - 1))
+    let q2 := dividend2 / d
+    let dHi' := dividend2 % d
+    let rest := divHalfLoop d ws dHi'
+    ((((q1 <<< 32) % B) ||| q2) :: rest.1, rest.2)
+
+/-- `divide` on magnitudes for a one-word denominator: the `num < denom` exit, the 1×1 exit and the
+    half-word loop. `none`: the general (Knuth) path, which is not modelled. Returns (quot, rem). -/
+def divWord (x : List Nat) (d : Nat) : Option (List Nat × List Nat) :=
+  if cmpMag x [d] < 0 then some ([], x)
+  else match x with
+    | [a] => some ((ofWord (a / d)).mag, (ofWord (a % d)).mag)
+    | _ =>
+      if d / H = 0 then
+        let r := divHalfLoop d x.reverse 0
+        some (stripHigh r.1.reverse, (ofWord r.2).mag)
+      else none
+
+/-- `while (n >= 256) { n.divide(256, q, r); n = q; push r }` then the last byte; little-endian output.
+    Fuel: the number of words × 8 bounds the number of bytes. -/
+def toBytesLoop : Nat → List Nat → List Nat
+  | 0, _ => []
+  | fuel + 1, n =>
+    if cmpMag n [256] ≥ 0 then
+      match divWord n 256 with
+      | some (q, r) => (r.headD 0 % 256) :: toBytesLoop fuel q
+      | none => []
+    else [n.headD 0 % 256]
+
+/-- `write_bytes_be`: (signum, big-endian bytes of the magnitude) -/
+def toBytesBE (a : Big) : Int × List Nat :=
+  let signum : Int := if a.mag = [] then 0 else if a.neg then -1 else 1
+  (signum, (toBytesLoop (8 * a.mag.length + 1) a.mag).reverse)
+
+/-! ### write_string (:1363-1405) -/
+
+/-- the inner `for j < 19` loop: digits of the chunk, least significant first; stops early when the
+    chunk is exhausted and no higher words remain -/
+def chunkDigits : Nat → Nat → Bool → List Nat
+  | 0, _, _ => []
+  | j + 1, r, more =>
+    let c := r % 10 + 48
+    let r' := r / 10
+    if r' = 0 ∧ !more then [c] else c :: chunkDigits j r' more
+
+/-- `do { v.divide(LP10, v, R); emit ≤ 19 digits of R } while (v.size() > 0)`. The division is a
+    parameter: `div19 v = (v / 10^19, v % 10^19)` on word lists. -/
+def toDecimalLoop (div19 : List Nat → List Nat × Nat) : Nat → List Nat → List Nat
+  | 0, _ => []
+  | fuel + 1, v =>
+    let qr := div19 v
+    let ds := chunkDigits 19 qr.2 (qr.1 ≠ [])
+    if qr.1 = [] then ds else ds ++ toDecimalLoop div19 fuel qr.1
+
+def toDecimal (div19 : List Nat → List Nat × Nat) (a : Big) : List Nat :=
+  if a.mag = [] then [48]
+  else
+    let ds := toDecimalLoop div19 (2 * a.mag.length + 1) a.mag
+    ((if a.neg then ds ++ [45] else ds)).reverse
+
+/-- `v.divide(LP10, v, R)` through the modelled exits of `divide` (a value of at most one word never needs
+    another); `([], 0)` stands for "not modelled" -/
+def div19Word (v : List Nat) : List Nat × Nat :=
+  match divWord v 10000000000000000000 with
+  | some (q, r) => (q, r.headD 0)
+  | none => ([], 0)
+
 end BigInt
 end Model
 end JV
